@@ -655,7 +655,7 @@ type c10comm struct {
 
 func c10RetryFlow(c *core.Ctx, r *c10retry, foreign ast.Node) {
 	f, lf := r.f, r.lf
-	wdF := structField(c, c10rs, "RetryPolicy", "waitDuration")
+	wdF := c10waitField(c)
 	bopF := structField(c, c10rs, "RetryPolicy", "BackOffPolicy")
 	pol := namedType(c, c10rs, "RetryPolicy")
 	if wdF == nil || bopF == nil || pol == nil {
@@ -1116,6 +1116,17 @@ func c10RetryFlow(c *core.Ctx, r *c10retry, foreign ast.Node) {
 	expAtomsOf := func(body *ast.BlockStmt, pm map[ast.Node]ast.Node) []expAtom {
 		var expAtoms []expAtom
 		ast.Inspect(body, func(n ast.Node) bool {
+			// switch p.BackOffPolicy { case "exponential": ... }: the engine keys the case like the comparison
+			if sw, ok := n.(*ast.SwitchStmt); ok && sw.Tag != nil && c10fieldSel(f, c10alias(f, body, sw.Tag), bopF) {
+				for _, cl := range sw.Body.List {
+					for _, x := range cl.(*ast.CaseClause).List {
+						if s, ok := c10constString(f, x); ok && s == expName {
+							expAtoms = append(expAtoms, expAtom{lf.EqKey(sw.Tag, x), false})
+						}
+					}
+				}
+				return true
+			}
 			be, ok := n.(*ast.BinaryExpr)
 			if !ok || (be.Op != token.EQL && be.Op != token.NEQ) {
 				return true
@@ -1491,7 +1502,7 @@ func c10Schema(c *core.Ctx) {
 // c10CreateWrapper: the configured wait duration reaches the wrapper.
 func c10CreateWrapper(c *core.Ctx) {
 	f := fn(c, c10rs, "RetryPolicy", "CreateWrapper")
-	wdF := structField(c, c10rs, "RetryPolicy", "waitDuration")
+	wdF := c10waitField(c)
 	cfgF := structField(c, c10rs, "RetryPolicy", "WaitDuration")
 	if f == nil || wdF == nil || cfgF == nil {
 		return
@@ -1719,4 +1730,34 @@ func c10ownCtx(f *flow.Func, fs []*flow.Func, at ast.Node, arg ast.Expr, depth i
 		}
 	}
 	return callers > 0
+}
+
+// c10waitField resolves RetryPolicy's parsed wait duration by role: its (only) field of type
+// time.Duration (the exported WaitDuration is the configured string); the name is the tie-breaker.
+func c10waitField(c *core.Ctx) *types.Var {
+	n := namedType(c, c10rs, "RetryPolicy")
+	if n == nil {
+		return nil
+	}
+	st, ok := n.Underlying().(*types.Struct)
+	if !ok {
+		c.Errorf("anchor: %s.RetryPolicy is not a struct", c10rs)
+		return nil
+	}
+	var cands []*types.Var
+	for i := 0; i < st.NumFields(); i++ {
+		if f := st.Field(i); c10typeIs(f.Type(), false, "time", "Duration") {
+			cands = append(cands, f)
+		}
+	}
+	if len(cands) == 1 {
+		return cands[0]
+	}
+	for _, f := range cands {
+		if f.Name() == "waitDuration" {
+			return f
+		}
+	}
+	c.Errorf("anchor: cannot identify the parsed wait duration field (time.Duration) of RetryPolicy: %d candidates", len(cands))
+	return nil
 }
